@@ -87,6 +87,12 @@ CHECKS = {
         'plus the scaling clause for divisors +-2^k of any normal magnitude. One recorded finding (finite / infinity with an overflowing dividend).',
    note=PROOF_NOTE + 'float only; "within a few units of rounding" is decided as equality with the float-evaluated textbook formula (no error analysis); the formula contracts use uninterpreted float arithmetic (commutative + and *). Loop-free except the 24-step subnormal loop of the logb model (unwinding assertions).',
    technique='CBMC code contracts (DFCC) with bit-precise IEEE-754 semantics for the Annex G clauses and uninterpreted float arithmetic for the formula contracts; native replay on counterexample operands and a special-value grid', design='4 C10'),
+ 'C07': dict(
+   text='closure() / const_closure() for T&, const T&, T&&, const T&& sources, xclosure_wrapper operations (assign value, assign closure, copy, swap member/free, &, get, conversion, ==), optional(x, flag) over lvalues and rvalues with assignment and conversion, '
+        'xbitset_reference assignment, forward_sequence of same-type lvalues, and converting construction from an rvalue optional of references with an instrumented payload: 27 wrapper functions, each with a contract stating pointer identity with the original object '
+        '(aliasing, no copy), independence of owned copies, write-through without rebinding, exchange of referent values, and that referents not owned by the source are not moved from.',
+   note=PROOF_NOTE + 'Loop-free: complete for the instantiated wrapper kinds and categories. Lifetimes are not modelled (owning = value member). xclosure_pointer / xproxy_wrapper and the purely type-level identities are not reached.',
+   technique='CBMC code contracts (DFCC) on mechanically lowered closure / optional / bitset-reference code: references become pointers, aliasing is pointer equality in the contract; native replay with a copy-counting payload under ASan', design='4 C07'),
 }
 NA = {
  'C05': 'variant lifetimes under exceptions, placement-new into a recursive union and visitation tables built from lambdas: no C++ exception/lifetime semantics in CBMC and no faithful mechanical lowering; a hand-written model would be a different technique (DESIGN.md 6)',
